@@ -488,6 +488,15 @@ func (ip *Interp) runClosure(fn *ssa.Function, args []any, binds []any, depth in
 				delete(env, x)
 			case *ssa.Slice:
 				base, ok := get(x.X)
+				if g, isG := x.X.(*ssa.Global); isG && !ok && ip.useGlobals && ip.globals == nil && g.Pkg != nil && strings.HasPrefix(g.Pkg.Pkg.Path(), modPath) {
+					// a package-level array that is never written after initialisation, sliced
+					sp := shortPkg(g.Pkg.Pkg.Path())
+					if ip.m.globalMapWritten(sp, canonGlobalName(g)) == "" {
+						if arr, isArr := ip.m.evalGlobals(sp)[canonGlobalName(g)].(*iArr); isArr {
+							base, ok = iAddr{arr, -1}, true
+						}
+					}
+				}
 				// s[lo:hi] on a known string with known bounds
 				if sc, isC := base.(constant.Value); ok && isC && sc.Kind() == constant.String && x.Max == nil {
 					str := constant.StringVal(sc)
@@ -713,6 +722,23 @@ func (ip *Interp) runClosure(fn *ssa.Function, args []any, binds []any, depth in
 					if st, isSt := b.(*iStruct); isSt {
 						env[x] = iFieldAddr{st, x.Field}
 						continue
+					}
+					// a field of a struct-valued array element (`&table[i].name`): the element is an abstract object
+					if ea, isEA := b.(iAddr); isEA && ea.idx >= 0 && ea.idx < len(ea.arr.elems) {
+						inner, have := ea.arr.elems[ea.idx].(*iStruct)
+						if !have && ea.arr.elems[ea.idx] == nil {
+							if nt, isNamed := x.X.Type().Underlying().(*types.Pointer).Elem().(*types.Named); isNamed {
+								if _, isSt := nt.Underlying().(*types.Struct); isSt {
+									inner = &iStruct{typ: nt, fields: map[int]any{}, val: true, zeroed: ip.globals != nil} // zero only in a package initialiser; an unknown element otherwise
+									ea.arr.elems[ea.idx] = inner
+									have = true
+								}
+							}
+						}
+						if have {
+							env[x] = iFieldAddr{inner, x.Field}
+							continue
+						}
 					}
 					// a field of a struct-valued field (node.Token.Literal): the inner struct is an abstract object of its own
 					if fa, isFA := b.(iFieldAddr); isFA {
@@ -1178,6 +1204,53 @@ func (ip *Interp) runClosure(fn *ssa.Function, args []any, binds []any, depth in
 							// an unknown slice: the result is unknown, nothing is written
 							delete(env, x)
 							continue
+						}
+					}
+					// slices.BinarySearchFunc on a known slice: the comparison is evaluated as the library does (the
+					// smallest index whose comparison is not negative; found when it is zero there)
+					if name := fnFullName(sc); name == "slices.BinarySearchFunc" && len(args) == 3 {
+						if sl, isSl := args[0].(iSlice); isSl {
+							var pf *ssa.Function
+							var pbinds []any
+							switch fv := args[2].(type) {
+							case *iClosure:
+								pf, pbinds = fv.fn, fv.binds
+							case iFn:
+								pf = fv.fn
+							}
+							if pf != nil && pf.Blocks != nil {
+								known := true
+								cmpAt := func(i int) int64 {
+									r, ok := ip.runClosure(pf, []any{sl.arr.elems[sl.lo+i], args[1]}, pbinds, depth+1)
+									rc, isC := r.(constant.Value)
+									if !ok || !isC || rc.Kind() != constant.Int {
+										known = false
+										return 0
+									}
+									v, _ := constant.Int64Val(rc)
+									return v
+								}
+								n := sl.high - sl.lo
+								i, j := 0, n
+								for i < j && known && !ip.stopped {
+									h := int(uint(i+j) >> 1)
+									if cmpAt(h) < 0 {
+										i = h + 1
+									} else {
+										j = h
+									}
+								}
+								if ip.stopped {
+									return nil, false
+								}
+								if known {
+									found := i < n && cmpAt(i) == 0
+									if known {
+										env[x] = iTuple{constant.MakeInt64(int64(i)), constant.MakeBool(found)}
+										continue
+									}
+								}
+							}
 						}
 					}
 					if res, ok := libModel(fnFullName(sc), args); ok {
@@ -1647,6 +1720,13 @@ func libModel(name string, args []any) (any, bool) {
 		if ok1 && ok2 {
 			return constant.MakeInt64(int64(strings.Index(a, b))), true
 		}
+	case "strings.Compare", "cmp.Compare":
+		a, ok1 := str(0)
+		b, ok2 := str(1)
+		if ok1 && ok2 {
+			return constant.MakeInt64(int64(strings.Compare(a, b))), true
+		}
+		return nil, false
 	case "unicode.ToUpper", "unicode.ToLower", "unicode.ToTitle":
 		if len(args) == 1 {
 			if c, ok := args[0].(constant.Value); ok && c.Kind() == constant.Int {
